@@ -20,7 +20,7 @@ EXL_ALPHA = ALPHA.replace(",", "")
 
 def plan(tier):
     if tier == "quick":
-        return [("debug", 16, dict(ncfg=150, nexl=150, edits=10))]
+        return [("debug", 16, dict(ncfg=150, nexl=150, edits=10)), ("release", 2, dict(ncfg=100, nexl=100, edits=10))]
     return [("debug", 16, dict(ncfg=2500, nexl=2500, edits=14)), ("release", 4, dict(ncfg=600, nexl=600, edits=10))]
 
 
@@ -57,8 +57,22 @@ def gen_cfg(rng):
 
 def shard(ctx):
     rng, P = ctx.rng, ctx.params
+    # a bystander handle stays alive while every other handle of the shard is parsed, edited and dropped: what it writes must never change
+    by_cats = gen_cfg(rng) or [("Bystander", [("k", "v")])]
+    by_canon = canon_cfg(by_cats)
+    bf = ctx.write("bystander.cfg", by_canon)
+    br = ctx.call("cfg.parse", bf, input_bytes=len(by_canon))
+    bh = br.value["handle"] if br.ok else None
     for i in range(P["ncfg"]):
         cfg_case(ctx, rng, P["edits"])
+        if bh is not None and i % 10 == 9:
+            bout = ctx.path("bystander.out")
+            r = ctx.call("cfg.write", bh, bout)
+            ctx.case(("bystander", i), True, ["cfg-bystander"])
+            if r.ok:
+                eq(ctx, "cfg_bystander_changed", ctx.read("bystander.out"), by_canon, [bf])
+    if bh is not None:
+        ctx.call("drop", bh)
     for i in range(P["nexl"]):
         exl_case(ctx, rng)
 
